@@ -1,0 +1,88 @@
+//! Verification hooks, compiled only with the `verif-hooks` feature.
+//!
+//! Everything in here is additive instrumentation for an external
+//! bounded-exhaustive exploration harness. With the feature off none of this
+//! exists and the crate behaves exactly as upstream.
+use std::cell::{Cell, RefCell};
+
+thread_local! {
+    static SALT: Cell<Option<u64>> = const { Cell::new(None) };
+    static RNG_SCRIPT: RefCell<Option<(Vec<u8>, usize)>> = const { RefCell::new(None) };
+    static COST_LOG: RefCell<Option<Vec<(u64, u64)>>> = const { RefCell::new(None) };
+}
+
+/// Override the random salt used by `serde::RandomState` and `TreeCache` on
+/// this thread. `None` restores the default (random) behaviour.
+pub fn set_salt(salt: Option<u64>) {
+    SALT.with(|s| s.set(salt));
+}
+
+pub fn salt() -> Option<u64> {
+    SALT.with(|s| s.get())
+}
+
+/// Install a script for the accumulator choice made by the pre-hard-fork
+/// `op_add`/`op_subtract` slow path. Each choice consumes one entry (modulo the
+/// range); when the script is exhausted, choice 0 is taken.
+pub fn set_rng_script(script: Option<Vec<u8>>) {
+    RNG_SCRIPT.with(|s| *s.borrow_mut() = script.map(|v| (v, 0)));
+}
+
+/// number of scripted choices consumed since the script was installed
+pub fn rng_choices_taken() -> usize {
+    RNG_SCRIPT.with(|s| s.borrow().as_ref().map(|(_, n)| *n).unwrap_or(0))
+}
+
+pub struct ScriptedRng {
+    fallback: rand::rngs::ThreadRng,
+}
+
+impl Default for ScriptedRng {
+    fn default() -> Self {
+        Self::new()
+    }
+}
+
+impl ScriptedRng {
+    pub fn new() -> Self {
+        Self {
+            fallback: rand::rng(),
+        }
+    }
+
+    /// shadows `rand::Rng::random_range` for the only shape used in the crate
+    pub fn random_range(&mut self, range: std::ops::Range<usize>) -> usize {
+        use rand::Rng;
+        let scripted = RNG_SCRIPT.with(|s| {
+            let mut s = s.borrow_mut();
+            s.as_mut().map(|(script, pos)| {
+                let v = script.get(*pos).copied().unwrap_or(0) as usize;
+                *pos += 1;
+                range.start + v % (range.end - range.start)
+            })
+        });
+        match scripted {
+            Some(v) => v,
+            None => self.fallback.random_range(range),
+        }
+    }
+}
+
+/// Start (Some) or stop (None) logging every budget comparison made by
+/// `check_cost` and the interpreter loop as `(cost, max_cost)` pairs.
+pub fn set_cost_log(on: bool) {
+    COST_LOG.with(|l| *l.borrow_mut() = if on { Some(Vec::new()) } else { None });
+}
+
+pub fn take_cost_log() -> Vec<(u64, u64)> {
+    COST_LOG.with(|l| l.borrow_mut().as_mut().map(std::mem::take).unwrap_or_default())
+}
+
+#[inline]
+pub fn log_cost(cost: u64, max_cost: u64) {
+    COST_LOG.with(|l| {
+        if let Some(v) = l.borrow_mut().as_mut() {
+            v.push((cost, max_cost));
+        }
+    });
+}
